@@ -11,7 +11,7 @@ def simpleOK (o : Order) (L : Nat) (a : SimpleAcc) (f : FieldSpec) : Bool :=
   match a.conv, o with
   | .bytes, .be => a.mem.bit == 0 && 8 * (L - a.mem.byteOff) - a.mem.width == f.shift L
   | .bytes, .le => a.mem.bit == 0 && 8 * a.mem.byteOff == f.shift L
-  | .be, .be => a.mem.bit == 0 && (a.mem.width == 16 || a.mem.width == 32) && 8 * (L - a.mem.byteOff) - a.mem.width == f.shift L
+  | .be, .be => a.mem.bit == 0 && (a.mem.width == 16 || a.mem.width == 32 || a.mem.width == 64) && 8 * (L - a.mem.byteOff) - a.mem.width == f.shift L
   | .be, .le => false
   | .bool01, .be => a.mem.width == 1 && a.mem.bit + a.mem.width ≤ 8 && 8 * (L - 1 - a.mem.byteOff) + a.mem.bit == f.shift L
   | .bool01, .le => a.mem.width == 1 && 8 * a.mem.byteOff + a.mem.bit == f.shift L
@@ -39,7 +39,7 @@ theorem simple_sound (o : Order) (L : Nat) (a : SimpleAcc) (f : FieldSpec) (h : 
   case be.be =>
     obtain ⟨⟨h0, hw⟩, h2⟩ := h
     subst h0
-    rcases hw with hw | hw
+    rcases hw with (hw | hw) | hw
     · subst hw
       simp (config := {decide := true}) only [SimpleAcc.set, SimpleAcc.get, memSet, memGet, convSet, convGet, ite_false, h2, Nat.reduceDiv, Nat.reducePow,
         bswap2_mod, bswap2_mod_arg, bswap2_invol, Nat.mod_mod, Nat.reduceAdd]
@@ -52,6 +52,12 @@ theorem simple_sound (o : Order) (L : Nat) (a : SimpleAcc) (f : FieldSpec) (h : 
       constructor
       · apply putN_congr; simp only [Nat.reducePow, Nat.mod_mod]
       · exact Nat.mod_eq_of_lt (getN_lt S 32 X)
+    · subst hw
+      simp (config := {decide := true}) only [SimpleAcc.set, SimpleAcc.get, memSet, memGet, convSet, convGet, ite_false, h2, Nat.reduceDiv, Nat.reducePow,
+        bswap8_mod, bswap8_mod_arg, bswap8_invol, Nat.mod_mod, Nat.reduceAdd]
+      constructor
+      · apply putN_congr; simp only [Nat.reducePow, Nat.mod_mod]
+      · exact Nat.mod_eq_of_lt (getN_lt S 64 X)
   case le.be =>
     obtain ⟨h1, h2⟩ := h
     simp only [SimpleAcc.set, SimpleAcc.get, memSet, memGet, convSet, convGet, h1, h2, ite_true, and_self]
